@@ -35,6 +35,7 @@ type Engine struct {
 	transparent   map[string]bool // abstract predicates being expanded (footprint probing)
 	preserved     []Preserved
 	readers       []ReadersClause
+	writers       []WritersClause
 	internal      map[string][]string // function -> packages that may call it
 	fpCache       map[string]map[string]bool
 	orderSkip     map[string]string
